@@ -78,20 +78,23 @@ def run(tier, seed):
             rt, xt = ps[0]["type"][:-1].strip(), ps[1]["type"][:-1].strip()
             rv, xv = Val(rt, "R", r), Val(xt, "X", r)
             W = TYPES[t][2]
-            H = ["void harness(void) {", "  ll_use_libm();", "  %s R; %s X; u32 k;" % (rt, xt), "  __CPROVER_assume(k < %d);" % n]
+            H = ["void harness(void) {", "  ll_use_libm();", "  %s R; %s X; u32 IN_k = nondet_u32(); u32 k = IN_k;" % (rt, xt), "  __CPROVER_assume(k < %d);" % n]
+            for i, (off, nb, lk, e) in enumerate(leaves(xt, "X", r)):
+                H.append("  %s IN_x%d = nondet_%s%d(); %s = IN_x%d;" % ("f%d" % (nb * 8) if lk == "f" else "u%d" % (nb * 8), i, "f" if lk == "f" else "u", nb * 8, e, i))
             xs = ["U2F%d(%s)" % (W, xv.lane(t, i)) for i in range(n)]
             ys = ["U2F%d(%s)" % (W, rv.lane(t, i)) for i in range(n)]
             for i in range(n):
                 H.append("  __CPROVER_assume(k != %d || %s);" % (i, operand(ocls, xs[i], t)))
-            for i, (off, nb, lk, e) in enumerate(leaves(xt, "X", r)):
-                H.append("  %s IN_%d = %s;" % ("f%d" % (nb * 8) if lk == "f" else "u%d" % (nb * 8), i, e))
             H.append("  %s(&R, &X);" % r["target"]["name"])
             for i in range(n):
                 H.append('  __CPROVER_assert(k != %d || %s, "%s(%s) is %s");' % (i, result(rcls, ys[i], t), f, ocls, rcls))
             H.append('  __CPROVER_assert(0, "canary: end of harness is reachable");\n}')
             title = "%s<%s>: lane %s -> %s (other lanes arbitrary)" % (f, t, ocls, rcls)
-            stem = "c_%s_%s_%s" % (f, t, re.sub(r"[^a-z0-9]", "_", ocls))
-            Bt.add((lambda rr, title=title: S.add(title, "include/xsimd/arch/generic/xsimd_generic_math.hpp / xsimd_generic_trigo.hpp", rr)),
+            stem = "c%03d_%s_%s" % (len(Bt.items), f, t)
+            def done(rr, title=title, f=f, t=t, ocls=ocls, rcls=rcls, n=n):
+                S.add(title, "include/xsimd/arch/generic/xsimd_generic_math.hpp / xsimd_generic_trigo.hpp", rr)
+                rep.targets[-1]["native_replay"] = lambda fl, vals, rdir: native_clause_replay(vals, rdir, f, t, ocls, rcls, n)
+            Bt.add(done,
                    wd, stem, j["out"], "", "\n".join(H) + "\n", r["target"]["name"], unwind=20, attempts=(("concrete", "sat", timeout),),
                    cbmc_flags=["--slice-formula"], plain=True)
     Bt.run(workers=12)
@@ -110,3 +113,49 @@ def run(tier, seed):
     rep.assumptions += ["architecture sse2 only (the kernels are the architecture-independent generic ones)", "plain CBMC obligations (assertions in a harness), not dfcc contracts",
                         "scalar rem_pio2 fallback: its loops are unwound at most 8 times (unwinding assertions on)"]
     return special.finish_special(rep, "C12")
+
+
+def native_clause_replay(vals, rdir, f, t, ocls, rcls, n):
+    """runs the real xsimd::f on the counterexample lanes and checks the clause natively"""
+    import subprocess, struct
+    W = TYPES[t][2]
+    lanes_bits = {}
+    k = 0
+    for name, v in vals.items():
+        m = re.search(r"IN_x(\d+)$", name)
+        if m and v is not None:
+            sv = str(v)
+            try:
+                if re.match(r"^[01]+$", sv) and len(sv) in (32, 64):
+                    bits = int(sv, 2)
+                else:
+                    fv = float(sv.rstrip("f").replace("+", "")) if not sv.lower().startswith(("nan", "-nan", "+nan")) else float("nan")
+                    bits = struct.unpack("<I", struct.pack("<f", fv))[0] if W == 32 else struct.unpack("<Q", struct.pack("<d", fv))[0]
+            except Exception:
+                return {"reproduced": None, "error": "cannot parse counterexample value %r" % sv}
+            lanes_bits[int(m.group(1))] = bits
+        elif name.endswith("IN_k") and v is not None:
+            k = int(re.sub(r"[^0-9]", "", str(v)) or 0)
+    T = TYPES[t][0]
+    U = "uint32_t" if W == 32 else "uint64_t"
+    src = ["#include <xsimd/xsimd.hpp>", "#include <cstdio>", "#include <cstring>", "#include <cstdint>", "#include <cmath>", "typedef float f32; typedef double f64;",
+           "static %s U2F(%s u) { %s f; std::memcpy(&f, &u, sizeof f); return f; }" % (T, U, T),
+           "static %s F2U(%s f) { %s u; std::memcpy(&u, &f, sizeof u); return u; }" % (U, T, U),
+           "#define F2U32 F2U\n#define F2U64 F2U",
+           "int main() { %s in[%d] = {%s}; %s x[%d], y[%d]; for (int i = 0; i < %d; ++i) x[i] = U2F(in[i]);" % (U, n, ", ".join("%dull" % lanes_bits.get(i, 0) for i in range(n)), T, n, n, n),
+           "  using B = xsimd::batch<%s, xsimd::sse2>; xsimd::%s(B::load_unaligned(x)).store_unaligned(y);" % (T, f),
+           "  int k = %d; bool pre = %s; bool post = %s;" % (k, operand(ocls, "x[k]", t), result(rcls, "y[k]", t)),
+           '  std::printf("x[k]=%a y[k]=%a pre=%d post=%d\\n", (double)x[k], (double)y[k], (int)pre, (int)post);',
+           '  std::printf("{\\"reproduced\\": %s}\\n", (pre && !post) ? "true" : "false"); return (pre && !post) ? 1 : 0; }']
+    with open(os.path.join(rdir, "driver.cpp"), "w") as fh:
+        fh.write("\n".join(src) + "\n")
+    with open(os.path.join(rdir, "build.sh"), "w") as fh:
+        fh.write("#!/bin/sh\ncd \"$(dirname \"$0\")\"\nR=${XSIMD_REPO:-/repo}\ng++ -std=c++14 -O2 -w -msse2 -I $R/include driver.cpp -o replay.bin && ./replay.bin\n")
+    p = subprocess.run(["sh", os.path.join(rdir, "build.sh")], stdout=subprocess.PIPE, stderr=subprocess.STDOUT, universal_newlines=True, timeout=300)
+    try:
+        os.unlink(os.path.join(rdir, "replay.bin"))
+    except OSError:
+        pass
+    out = p.stdout.strip()
+    rep_ = True if '"reproduced": true' in out else (False if '"reproduced": false' in out else None)
+    return {"reproduced": rep_, "output": out[-800:], "lane": k, "lanes": {str(i): hex(b) for i, b in lanes_bits.items()}}
